@@ -447,8 +447,24 @@ class FuncGen(object):
                 choices.append((1, 'bulk'))
         if f.calls and self.callable:
             choices.append((1, 'vcall'))
+        if len(self.params) + len(self.locals) > 300 and f.stmts:
+            choices.append((4, 'alias'))
         kind = ch.weighted(choices)
         t = ch.pick(f.types)
+        if kind == 'alias':
+            # local.set X directly followed by local.get Y where X and Y agree in their low 7 / 8 bits (index bytes that look
+            # alike to anything comparing single bytes of the encoding); Y's value goes to a third local of its type
+            nloc = len(self.params) + len(self.locals)
+            allt = self.params + self.locals
+            xs = [i for i in range(128, nloc) if i not in self.reserved and i >= len(self.params)]
+            if xs:
+                x = ch.pick(xs)
+                ys = [y for y in (x % 256, x % 128, x % 256 + 256, x % 128 + 128, x - 128, x - 256) if 0 <= y < nloc and y != x]
+                if ys:
+                    y = ch.pick(ys)
+                    self.note('set_get_alias_pair')
+                    return self.expr(allt[x], depth) + [('local.set', x), ('local.get', y), ('local.set', self.some_local(allt[y], True))]
+            kind = 'set'
         if kind == 'set':
             return self.expr(t, depth) + [('local.set', self.some_local(t, True))]
         if kind == 'drop':
